@@ -133,10 +133,35 @@ def build_kmodel(force=False):
     subprocess.run(["rm", "-rf", ext])
     os.makedirs(ext)
     exdir = os.path.join(COQ, "theories", "Extract")
-    for ev in sorted(f for f in os.listdir(exdir) if f.endswith(".v")):
-        rc, out = run_cmd(["coqc", "-Q", os.path.join(COQ, "theories"), "KV", os.path.join(exdir, ev)], cwd=ext, timeout=900)
-        if rc:
-            return False, "extraction failed (%s):\n%s" % (ev, out)
+    # Every Extract/*.v is compiled on its own first (so a broken one is named), then ONE combined `Separate Extraction`
+    # of the union is run: separate runs into one directory would overwrite the shared modules (Datatypes, List0, BinNums...)
+    # with the subset the last file needs.
+    evs = sorted(f for f in os.listdir(exdir) if f.endswith(".v"))
+    imports, names, blacklist = [], [], []
+    for ev in evs:
+        text = strip_coq_comments(open(os.path.join(exdir, ev)).read())
+        for m in re.finditer(r"From\s+\w+\s+Require\s+Import\s+.*?\.(?=\s)", text, re.S):
+            imports.append(m.group(0))
+        for m in re.finditer(r"Extraction\s+Blacklist\s+([^.]*)\.", text):
+            blacklist += m.group(1).split()
+        ms = re.findall(r"Separate\s+Extraction\s+(.*?)\.(?=\s|$)", text, re.S)
+        if len(ms) != 1:
+            return False, "extraction failed (%s): expected exactly one Separate Extraction command" % ev
+        names += ms[0].split()
+    seen = set()
+    names = [n for n in names if not (n in seen or seen.add(n))]
+    combined = os.path.join(ext, "ExtractAll.v")
+    with open(combined, "w") as f:
+        f.write("\n".join(dict.fromkeys(imports)) + "\nExtraction Blacklist %s.\nSeparate Extraction\n  %s.\n" % (
+            " ".join(dict.fromkeys(blacklist)), "\n  ".join(names)))
+    rc, out = run_cmd(["coqc", "-Q", os.path.join(COQ, "theories"), "KV", combined], cwd=ext, timeout=900)
+    if rc:
+        return False, "extraction failed (union of %s):\n%s" % (evs, out)
+    for junk in ("ExtractAll.v", "ExtractAll.vo", "ExtractAll.glob", "ExtractAll.vok", "ExtractAll.vos", ".ExtractAll.aux"):
+        try:
+            os.remove(os.path.join(ext, junk))
+        except OSError:
+            pass
     odir = os.path.join(VERIF, "ocaml")
     cmds = sorted(f for f in os.listdir(odir) if f.startswith("cmds_") and f.endswith(".ml"))
     for f in ["kcore.ml", "kmain.ml"] + cmds:
